@@ -260,7 +260,7 @@ def zone_proj(tzinfo):
 _NOTEXT = object()
 
 
-def run_impl(o, s, timeout=10.0, text=_NOTEXT):
+def run_impl(o, s, timeout=30.0, text=_NOTEXT):
     """Run the real parser; returns the canonical outcome.  `text` overrides the object handed
     to parse() (bytes / stream variants)."""
     from dateutil import parser as P
